@@ -1120,7 +1120,7 @@ func (r *c16Run) walkCycle(w dagWriter, start ID) ([]ID, error) {
 
 // guard: refuse to call into a descendant walk that cannot terminate (the process would
 // die of stack exhaustion, which no harness can catch).
-func (r *c16Run) guard(v *c16View, w dagWriter, what string, starts []ID) (skip bool, f *drv.Failure) {
+func (r *c16Run) guard(v *c16View, w dagWriter, ctx, what string, starts []ID) (skip bool, f *drv.Failure) {
 	if r.noGuard {
 		return false, nil
 	}
@@ -1133,10 +1133,10 @@ func (r *c16Run) guard(v *c16View, w dagWriter, what string, starts []ID) (skip 
 		if cyc == nil {
 			continue
 		}
-		sig := "other"
+		sig := ctx + ":other"
 		for i := 0; i+1 < len(cyc); i++ {
 			if !r.hasRelAny(v, cyc[i], cyc[i+1]) {
-				sig = "edge-of-prefix-aliased-identifier"
+				sig = ctx + ":edge-of-prefix-aliased-identifier"
 			}
 		}
 		f := r.failf(v, "descendant-walk-does-not-terminate", sig, "%s not attempted: the writer's descendant walk (dagWriter.retrieveDescendants, which recurses over retrieveOutgoingRelationships without a visited set) started at %s revisits a resource along %s although the graph is acyclic; the call would recurse until the goroutine stack limit and kill the process", what, s, c16IDs(cyc))
@@ -1146,6 +1146,46 @@ func (r *c16Run) guard(v *c16View, w dagWriter, what string, starts []ID) (skip 
 		return true, f
 	}
 	return false, nil
+}
+
+// walkedTargets: the targets whose descendants the real define call is going to walk, in
+// order, found by running the call's own early exits (existence and reverse-edge check,
+// endpoint validation, cycle verdict of an earlier target) first.
+func (r *c16Run) walkedTargets(w dagWriter, from ID, rt RelationshipType, tos []ID, many bool) []ID {
+	if r.noGuard {
+		return nil
+	}
+	if !many {
+		exists, err := w.checkRelationshipExists(r.ctx, Relationship{From: from, Type: rt, To: tos[0]})
+		if err != nil || exists {
+			return nil
+		}
+		if err := w.validateResourcesExist(r.ctx, from, tos[0]); err != nil {
+			return nil
+		}
+		return tos[:1]
+	}
+	if err := w.validateResourcesExist(r.ctx, from); err != nil {
+		return nil
+	}
+	if err := w.validateResourcesExist(r.ctx, tos...); err != nil {
+		return nil
+	}
+	var out []ID
+	for _, to := range tos {
+		out = append(out, to)
+		if cyc, err := r.walkCycle(w, to); err != nil || cyc != nil {
+			return out
+		}
+		desc, err := w.retrieveDescendants(r.ctx, to)
+		if err != nil {
+			return out
+		}
+		if _, found := desc[from]; found {
+			return out
+		}
+	}
+	return out
 }
 
 func (r *c16Run) hasRelAny(v *c16View, from, to ID) bool {
@@ -1480,7 +1520,7 @@ func (r *c16Run) exec(op c16Op) *drv.Failure {
 		if !r.hasRes(v, a) {
 			return nil
 		}
-		if skip, f := r.guard(v, w, "descendant walk of "+a.String(), []ID{a}); skip || f != nil {
+		if skip, f := r.guard(v, w, "descendants", "descendant walk of "+a.String(), []ID{a}); skip || f != nil {
 			return f
 		}
 		got, err := w.retrieveDescendants(r.ctx, a)
@@ -1576,9 +1616,10 @@ func (r *c16Run) defineRels(v *c16View, w dagWriter, from ID, rt RelationshipTyp
 		}
 	}
 	wantOK := allExist || (len(missing) == 0 && len(cyc) == 0)
-	// the implementation walks the descendants of every target unless it returns early
-	if len(missing) == 0 && !(allExist && !many) {
-		if skip, f := r.guard(v, w, fmt.Sprintf("%s(%s -%s-> %s)", name, from, rt, c16IDs(tos)), tos); skip || f != nil {
+	// the implementation walks the descendants of the targets unless it returns early;
+	// which targets it reaches is decided with its own pre-checks
+	if walked := r.walkedTargets(w, from, rt, tos, many); len(walked) > 0 {
+		if skip, f := r.guard(v, w, "define", fmt.Sprintf("%s(%s -%s-> %s)", name, from, rt, c16IDs(tos)), walked); skip || f != nil {
 			if f == nil {
 				r.st.Probe("known_walk_skipped")
 			}
